@@ -3,6 +3,7 @@ EXTENDS UdpRelay, Json
 MCTargets == ${Targets}
 MCDomains == ${Domains}
 MCRejected == ${Rejected}
+MCUnresolvable == ${Unresolvable}
 View == sv
 Obs == [table |-> table, sent |-> sent, back |-> back]
 Emit == PrintT("EDGE " \o ToJson([f |-> sv, a |-> act', t |-> sv', o |-> Obs']))
